@@ -9,6 +9,7 @@ import (
 	"os"
 	"runtime"
 
+	"github.com/Masterminds/semver/v3"
 	"github.com/creativeprojects/go-selfupdate"
 	"github.com/rs/zerolog/log"
 )
@@ -58,7 +59,9 @@ func Updater(version string, executablePath string) (string, error) {
 		return emptyVersion, err
 	}
 
-	if latest.LessOrEqual(version) {
+	// A development build might not have a comparable version (LessOrEqual panics in that case).
+	// It is considered to be older than any release.
+	if _, err := semver.NewVersion(version); err == nil && latest.LessOrEqual(version) {
 		logger.Info().Msgf("You have the latest version installed, %s", version)
 		return version, nil
 	}
